@@ -81,3 +81,49 @@ func H_C19_DB() {
 	vrt.Assert(!vrt.Symbolic() || !h.withCompactor || h.compactorExited, "handles/close-joins-the-compactor")
 	vrt.Reach("handles/end")
 }
+
+// H_C19_KillReopen: the recovery paths (torn WAL tail, WAL file without header, unflagged folders, WAL replay
+// into a new table) leave nothing open beyond the bound either, and Close after a recovery releases everything.
+// Kill points as in C02 (model journal under the engine, strace journal natively).
+func H_C19_KillReopen() {
+	vrt.RandPromoteBudget(0)
+	h := vNewDBEnvU(vUniverse[:1])
+	defer h.fs.Cleanup()
+	key := vUniverse[0]
+	opts := []ExtraOption{MemstoreSizeBytes(math.MaxUint64), WriteBufferSizeBytes(64), ReadBufferSizeBytes(64)}
+	base := h.fs.Base()
+	h.fs.TraceStart()
+	vrt.Assert(h.open(opts...) == nil, "killreopen/open-no-error")
+	n := vrt.Range("steps", 0, 3)
+	for i := 0; i < n; i++ {
+		switch vrt.Choose(vrt.K("op", i), 3) {
+		case 0:
+			h.put(key, []byte{vrt.Byte(vrt.K("v", i))})
+		case 1:
+			h.del(key)
+		case 2:
+			h.db.rwLock.Lock()
+			err := h.db.rotateWalAndFlushMemstore()
+			h.db.rwLock.Unlock()
+			vrt.Assert(err == nil, "killreopen/rotation-no-error")
+			h.maybeFlush()
+		}
+	}
+	h.runPendingNative()
+	h.fs.TraceStop()
+	for _, k := range h.fs.CrashPoints("crash") {
+		img := h.fs.Image(k, base, nil)
+		h2 := &vDB{fs: img, dir: h.fs.Rebase(img, h.dir), ref: h.ref}
+		oerr := h2.open(opts...)
+		vrt.Assert(oerr == nil, "killreopen/reopen-after-kill-no-error")
+		if oerr == nil {
+			h2.runPendingNative()
+			vrt.Assert(img.OpenCount() <= h2.tables()+1, "killreopen/recovery-leaves-nothing-open-beyond-the-bound")
+			vrt.Assert(h2.db.Close() == nil, "killreopen/close-no-error")
+			vrt.Assert(img.OpenCount() == 0, "killreopen/none-left-after-close")
+		}
+		img.Cleanup()
+	}
+	vrt.TraceBool("done", true)
+	vrt.Reach("killreopen/end")
+}
